@@ -690,7 +690,61 @@ fn bcj2(cli: &Cli, rep: &Report, thorough: bool) {
             ),
         }
     }
+    // the four sources hand out at most c bytes per read call (the CALL/JUMP streams are consumed four bytes at a time,
+    // so a refill can find 1-3 left-over bytes in the buffer)
+    for mode in [0u32, 2] {
+        let streams = bcj2_encode_policy(&code, mode);
+        for chunk in [1usize, 2, 3, 4, 5, 6, 7, 9, 13, 4093] {
+            let desc = format!("C11|bcj2|code{}|mode{}|src{}", code.len(), mode, chunk);
+            if !cli.selected(&desc) {
+                continue;
+            }
+            rep.add("evaluations", 1);
+            let r = catch(|| -> std::io::Result<Vec<u8>> {
+                let inputs: Vec<ChunkedSrc> = streams.iter().map(|s| ChunkedSrc { data: s, pos: 0, max: chunk }).collect();
+                let mut r = BCJ2Reader::new(inputs, code.len() as u64);
+                let mut out = Vec::new();
+                let mut buf = vec![0u8; 4096];
+                loop {
+                    let n = r.read(&mut buf)?;
+                    if n == 0 {
+                        break;
+                    }
+                    out.extend_from_slice(&buf[..n]);
+                    if out.len() > code.len() * 2 {
+                        return Err(std::io::Error::other("verif: endless"));
+                    }
+                }
+                Ok(out)
+            });
+            match r {
+                Ok(Ok(out)) if out == code => rep.nontrivial(hash_desc(&desc)),
+                other => rep.violation(
+                    Violation::new("wrong-bytes", "BCJ2Reader output depends on how its sources split their reads", desc.clone())
+                        .attr("filter", "bcj2")
+                        .attr("converted", "true")
+                        .detail(format!("{:?}", other.map(|r| r.map(|o| o.len()).map_err(|e| e.to_string())).map_err(|p| p.msg))),
+                ),
+            }
+        }
+    }
     rep.sample(json!({"bcj2_original": "e800000000ff", "decisions": "1", "streams": "main=e8ff call=00000005 jump= rc=..."}));
+}
+
+/// A source that hands out at most `max` bytes per read call.
+struct ChunkedSrc<'a> {
+    data: &'a [u8],
+    pos: usize,
+    max: usize,
+}
+
+impl Read for ChunkedSrc<'_> {
+    fn read(&mut self, buf: &mut [u8]) -> std::io::Result<usize> {
+        let n = buf.len().min(self.data.len() - self.pos).min(self.max);
+        buf[..n].copy_from_slice(&self.data[self.pos..self.pos + n]);
+        self.pos += n;
+        Ok(n)
+    }
 }
 
 /// Encode with a fixed policy: 0 = convert every opcode that can be, 1 = none, 2 = alternate.
